@@ -1,6 +1,7 @@
 """precis-profiles/src/usernames.rs"""
 from vlib.extract import Fn, Impl, Verbatim, Text, Module, Loop
 from .lib_common import BROADCAST, FACTS
+from .nicknames import fast
 
 HEADER = '''use super::*;
 use crate::vx::*;
@@ -91,4 +92,8 @@ proof {
         Fn('directionality_rule', ret='r', requires=[INTO_T], head=FACTS,
            ensures=[('C09.directionality', 'res_view(r) == dir_rule(%s)' % S0),
                     ('C09.unchanged', 'r matches Ok(x) ==> x@ == %s' % S0)]),
-    ] + profile('UsernameCaseMapped', True) + profile('UsernameCasePreserved', False), header=HEADER)
+    ] + profile('UsernameCaseMapped', True) + profile('UsernameCasePreserved', False)
+      + fast('UsernameCaseMapped', 'get_username_case_mapped_profile', 'user_prepare(%s)' % S0, 'user_enforce(%s, true)' % S0,
+             'cmp_spec(user_enforce(as_ref_view(&s1), true), user_enforce(as_ref_view(&s2), true))')
+      + fast('UsernameCasePreserved', 'get_username_case_preserved_profile', 'user_prepare(%s)' % S0, 'user_enforce(%s, false)' % S0,
+             'cmp_spec(user_enforce(as_ref_view(&s1), false), user_enforce(as_ref_view(&s2), false))'), header=HEADER)
